@@ -286,7 +286,9 @@ Definition close_revalidated (c : mcfg) (d : disk) (n : str) (k : key) (now : Z)
 
 (* ---------------- cachingFunc ---------------- *)
 
-Record cf_out := mkCf { cf_state : mstate; cf_client : client; cf_log : list dlv }.
+(* cf_always: the always-include header map as this call leaves it. The Go code passes the map by
+   pointer, so what a nested call adds is seen by its caller afterwards. *)
+Record cf_out := mkCf { cf_state : mstate; cf_client : client; cf_log : list dlv; cf_always : hdrs }.
 
 Definition bare (s : Z) : client := mkClient KBare s [] [] false.
 
@@ -317,7 +319,7 @@ Definition s_miss := bytes "miss".
 Definition s_revalidated := bytes "revalidated".
 
 (* serve a Found entry to the client (the Found branch without restart_on_redirect) *)
-Definition serve_found (c : mcfg) (q : req) (always : hdrs) (f : found) (age : Z) (stale : bool) : client :=
+Definition serve_found (c : mcfg) (q : req) (always : hdrs) (f : found) (age : Z) (stale : bool) : client * hdrs :=
   let m := f_meta f in
   let st := hget always hdr_cache_status in
   let always1 := if nonempty st then (if str_eqb st s_pass then with_status always s_hit else always)
@@ -329,7 +331,7 @@ Definition serve_found (c : mcfg) (q : req) (always : hdrs) (f : found) (age : Z
     (* the stored size is the resource length; no 206 announced = the whole entry is sent *)
     let '(st', hs, rr') :=
         if m_status m =? 200 then set_ranged_headers rr (m_size m) 200 else (m_status m, None, rr) in
-    if (m_status m =? 200) && (400 <=? st') then bare st' else
+    if (m_status m =? 200) && (400 <=? st') then (bare st', always2) else
     let always3 := match hs with
                    | Some (cl, cr) => hset (hset always2 s_content_length cl) s_content_range cr
                    | None => always2
@@ -338,22 +340,29 @@ Definition serve_found (c : mcfg) (q : req) (always : hdrs) (f : found) (age : Z
     match rr', st' =? 206 with
     | Some r, true =>
       match send_slice (f_body f) (rr_start r (m_size m)) (rr_size r (m_size m)) with
-      | Some b => mk_client (q_method q) st' h b
-      | None => mk_client (q_method q) st' h []
+      | Some b => (mk_client (q_method q) st' h b, always3)
+      | None => (mk_client (q_method q) st' h [], always3)
       end
-    | _, _ => mk_client (q_method q) st' h (take (f_body f) 0 (m_size m))
+    | _, _ => (mk_client (q_method q) st' h (take (f_body f) 0 (m_size m)), always3)
     end
   | None =>
     let h := suffix_etag c (clear_and_copy (m_resph m) always2) in
-    mk_client (q_method q) (m_status m) h (take (f_body f) 0 (m_size m))
+    (mk_client (q_method q) (m_status m) h (take (f_body f) 0 (m_size m)), always2)
   end.
 
 Definition s_no_cl : str := [].
 
+(* mayFollow: the URLs followed for one client request (host ++ request-URI), at most 10 *)
+Definition max_redirect_hops : nat := 10.
+Definition follow_key (u : url) : str := u_host u ++ url_request_uri u.
+Definition may_follow (seen : list str) (u : url) : bool :=
+  negb (str_in seen (follow_key u)) && Nat.leb (length seen) max_redirect_hops.
+Definition loop_detected : client := mkClient KErrorJson 508 [] [] false.
+
 Fixpoint caching_func (fuel : nat) (c : mcfg) (st : mstate) (q : req) (override_url : option str)
-         (always : hdrs) (frf : option rule) (skip_reval : bool) (log : list dlv) : cf_out :=
+         (always : hdrs) (frf : option rule) (skip_reval : bool) (seen : list str) (log : list dlv) : cf_out :=
   match fuel with
-  | O => mkCf st (mkClient KUnmodelled 0 [] [] false) log
+  | O => mkCf st (mkClient KUnmodelled 0 [] [] false) log always
   | S fuel' =>
   (* GetRoutingFlavors *)
   let host := drop_port (q_host q) in
@@ -380,29 +389,30 @@ Fixpoint caching_func (fuel : nat) (c : mcfg) (st : mstate) (q : req) (override_
     let out := route_request 6 (mc_cfg c) (mc_rules c) q1 (q_body q1) override_url rf (ms_script st) log in
     let st1 := mkState (ms_disk st) (rt_script out) (ms_now st) in
     match rt_res out with
-    | inr e => mkCf st1 (write_error e) (rt_log out)
+    | inr e => mkCf st1 (write_error e) (rt_log out) always
     | inl ok =>
       let restart := match rf with Some r => r_restart r | None => false end in
       match ro_redirect ok with
       | Some loc =>
         if restart then
           let red := parse_url loc in
-          if url_eqb red (parse_url (q_url q1)) then mkCf st1 (mkClient KErrorJson 508 [] [] false) (rt_log out)
+          if url_eqb red (parse_url (q_url q1)) then mkCf st1 (mkClient KErrorJson 508 [] [] false) (rt_log out) always
           else
             let ru := redirected_url (parse_url (q_url q1)) (q_host q1) (parse_url (ro_url ok)) red in
             let rr := req_with q1 (u_host ru) ru (q_hdrs q1) [] in
-            caching_func fuel' c st1 rr None always rf false (rt_log out)
+            if negb (may_follow seen ru) then mkCf st1 loop_detected (rt_log out) always else
+            caching_func fuel' c st1 rr None always rf false (follow_key ru :: seen) (rt_log out)
         else
           let always' := with_status (add_resp_headers always (ro_rule ok)) s_pass in
-          mkCf st1 (mk_client (q_method q) (rs_status (ro_resp ok)) (suffix_etag c (clear_and_copy (rs_hdrs (ro_resp ok)) always')) (rs_body (ro_resp ok))) (rt_log out)
+          mkCf st1 (mk_client (q_method q) (rs_status (ro_resp ok)) (suffix_etag c (clear_and_copy (rs_hdrs (ro_resp ok)) always')) (rs_body (ro_resp ok))) (rt_log out) always'
       | None =>
         let always' := with_status (add_resp_headers always (ro_rule ok)) s_pass in
-        mkCf st1 (mk_client (q_method q) (rs_status (ro_resp ok)) (suffix_etag c (clear_and_copy (rs_hdrs (ro_resp ok)) always')) (rs_body (ro_resp ok))) (rt_log out)
+        mkCf st1 (mk_client (q_method q) (rs_status (ro_resp ok)) (suffix_etag c (clear_and_copy (rs_hdrs (ro_resp ok)) always')) (rs_body (ro_resp ok))) (rt_log out) always'
       end
     end
   else
   match rf with
-  | None => mkCf st (mkClient KUnmodelled 0 [] [] false) log
+  | None => mkCf st (mkClient KUnmodelled 0 [] [] false) log always
   | Some rule =>
     let keys := keys_from_request (q_method q1) (q_host q1) (key_uri rule q1) (q_hdrs q1) in
     let dflt := mkKey [] [] [] false [] [] in
@@ -413,7 +423,7 @@ Fixpoint caching_func (fuel : nat) (c : mcfg) (st : mstate) (q : req) (override_
     | GClient304 f age =>
       let al := with_status always s_hit in
       let h := suffix_etag c (clear_and_copy (allow_headers (m_resph (f_meta f)) allowed_in_304) al) in
-      mkCf st1 (mk_client (q_method q) 304 h []) log
+      mkCf st1 (mk_client (q_method q) 304 h []) log al
     | GFound f age stale =>
       if r_restart rule && is_redirect (m_status (f_meta f)) then
         let loc := parse_url (m_redirect (f_meta f)) in
@@ -421,8 +431,11 @@ Fixpoint caching_func (fuel : nat) (c : mcfg) (st : mstate) (q : req) (override_
         (* requestWithRedirect: rr.URL = RedirectedURL(rr, rr.URL, location) without the scheme override *)
         let ru' := if nonempty (u_scheme loc) then loc else mkUrl (u_scheme (parse_url (q_url q1))) (u_host ru) (u_path ru) (u_query ru) (u_force ru) in
         let rr := req_with q1 (u_host ru') ru' (q_hdrs q1) [] in
-        caching_func fuel' c st1 rr (Some (url_string ru')) [] (Some rule) false log
-      else mkCf st1 (serve_found c q1 always_rf f age stale) log
+        if negb (may_follow seen ru') then mkCf st1 loop_detected log always_rf else
+        (* the nested call gets a fresh map: this level's map is left as it is *)
+        let inner := caching_func fuel' c st1 rr (Some (url_string ru')) [] (Some rule) false (follow_key ru' :: seen) log in
+        mkCf (cf_state inner) (cf_client inner) (cf_log inner) always_rf
+      else let '(cl, al) := serve_found c q1 always_rf f age stale in mkCf st1 cl log al
     | GWriter _ | GRevalWriter _ _ =>
       let '(k, reval, old_meta, age) :=
           match gr with
@@ -444,7 +457,7 @@ Fixpoint caching_func (fuel : nat) (c : mcfg) (st : mstate) (q : req) (override_
       let out := route_request 6 (mc_cfg c) (mc_rules c) q2 (q_body q2) override_url (Some rule) (ms_script st) log in
       let st2 := mkState d1 (rt_script out) (ms_now st) in
       match rt_res out with
-      | inr e => mkCf st2 (write_error e) (rt_log out)
+      | inr e => mkCf st2 (write_error e) (rt_log out) always_rf
       | inl ok =>
         let rp := ro_resp ok in
         let rule_f := ro_rule ok in
@@ -456,7 +469,7 @@ Fixpoint caching_func (fuel : nat) (c : mcfg) (st : mstate) (q : req) (override_
         let ranged := (match rr with Some _ => true | None => false end) && (rs_status rp =? 200)
                       && negb (do_not_cache dirs) && negb should_skip in
         let '(st_over, rhs, rr1) := if ranged then set_ranged_headers rr resp_cl 200 else (rs_status rp, None, None) in
-        if ranged && (400 <=? st_over) then mkCf st2 (bare st_over) (rt_log out) else
+        if ranged && (400 <=? st_over) then mkCf st2 (bare st_over) (rt_log out) always1 else
         let rr := if st_over =? 206 then rr1 else None in
         let always2 := match rhs with
                        | Some (cl, cr) => hset (hset always1 s_content_length cl) s_content_range cr
@@ -468,25 +481,25 @@ Fixpoint caching_func (fuel : nat) (c : mcfg) (st : mstate) (q : req) (override_
           let fresh := if str_eqb (hget (rs_hdrs rp) s_content_length) (bytes "0") then hdel (rs_hdrs rp) s_content_length else rs_hdrs rp in
           let '(d2, okc) := close_revalidated c d1 name k (ms_now st) (Some fresh) in
           let st3 := mkState d2 (rt_script out) (ms_now st) in
-          if negb okc then mkCf st3 (bare 500) (rt_log out) else
+          if negb okc then mkCf st3 (bare 500) (rt_log out) always2 else
           let h4 := if nonempty client_vh && nonempty client_vv then hset h3 client_vh client_vv else h3 in
-          caching_func fuel' c st3 (set_hdrs q1 h4) None (with_status always2 s_revalidated) (Some rule_f) true (rt_log out)
+          caching_func fuel' c st3 (set_hdrs q1 h4) None (with_status always2 s_revalidated) (Some rule_f) true seen (rt_log out)
         else if nonempty used && (rs_status rp =? 304) then
           (* an uncacheable 304 for rrrouter's own validator: serve the stored entry once, life not extended *)
           let h4 := if nonempty client_vh && nonempty client_vv then hset h3 client_vh client_vv else h3 in
-          caching_func fuel' c st2 (set_hdrs q1 h4) None (with_status always2 s_revalidated) (Some rule_f) true (rt_log out)
+          caching_func fuel' c st2 (set_hdrs q1 h4) None (with_status always2 s_revalidated) (Some rule_f) true seen (rt_log out)
         else
         let q3 := set_hdrs q1 h3 in
         let relay (al : hdrs) : client :=
             mk_client (q_method q) st_over (suffix_etag c (clear_and_copy (rs_hdrs rp) al)) (rs_body rp) in
-        if do_not_cache dirs then mkCf st2 (relay (with_status always2 s_uncacheable)) (rt_log out)
+        if do_not_cache dirs then mkCf st2 (relay (with_status always2 s_uncacheable)) (rt_log out) (with_status always2 s_uncacheable)
         else
         let stale_if_error :=
             reval && (400 <=? rs_status rp) &&
             match old_meta with Some m => can_stale_if_error (get_directives (m_resph m)) age | None => false end in
         if stale_if_error then
           (* SetRevalidateErroredAndClose(true): nothing changes on disk *)
-          caching_func fuel' c st2 q3 None (with_status always2 s_stale) (Some rule_f) true (rt_log out)
+          caching_func fuel' c st2 q3 None (with_status always2 s_stale) (Some rule_f) true seen (rt_log out)
         else
         let always3 := hset (with_status always2 (if should_skip then s_pass else if reval then s_revalidated else s_miss)) s_age (bytes "0") in
         (* redirects answered by the origin *)
@@ -496,14 +509,15 @@ Fixpoint caching_func (fuel : nat) (c : mcfg) (st : mstate) (q : req) (override_
             | Some loc =>
               let red := parse_url loc in
               if url_eqb red (parse_url (q_url q3))
-              then (None, Some (mkCf st2 (mkClient KErrorJson 508 [] [] false) (rt_log out)), None)
+              then (None, Some (mkCf st2 (mkClient KErrorJson 508 [] [] false) (rt_log out) always3), None)
               else
                 let ru := redirected_url (parse_url (q_url q3)) (q_host q3) (parse_url (ro_url ok)) red in
                 if r_restart rule_f then
+                  if negb (may_follow seen ru) then (None, Some (mkCf st2 loop_detected (rt_log out) always3), None) else
                   (* client writes are disabled: the restarted request answers the client *)
                   let rrq := req_with q3 (u_host ru) ru (q_hdrs q3) [] in
                   (Some (url_string ru), None,
-                   Some (caching_func fuel' c st2 rrq (Some (url_string ru)) always3 (Some rule_f) false (rt_log out)))
+                   Some (caching_func fuel' c st2 rrq (Some (url_string ru)) always3 (Some rule_f) false (follow_key ru :: seen) (rt_log out)))
                 else (Some (url_string ru), None, None)
             end in
         match early with
@@ -514,6 +528,8 @@ Fixpoint caching_func (fuel : nat) (c : mcfg) (st : mstate) (q : req) (override_
                               | None => (st2, rt_log out)
                               end in
           let inner_cl : option client := match inner with Some i => Some (cf_client i) | None => None end in
+          (* what the nested request added to the shared always-include map is kept *)
+          let always3 := match inner with Some i => cf_always i | None => always3 end in
           (* Vary: Origin re-keys the entry under the full-origin key *)
           let k' := if vary_by_origin dirs && k_opaque k
                     then match find has_full_origin keys with Some fk => fk | None => k end else k in
@@ -521,16 +537,16 @@ Fixpoint caching_func (fuel : nat) (c : mcfg) (st : mstate) (q : req) (override_
           (* statuses the storage never keeps are relayed directly, like should_skip requests *)
           if should_skip || negb (is_cacheable_status (rs_status rp)) then
             match inner_cl with
-            | Some icl => mkCf st4 icl log4
-            | None => mkCf st4 (relay (with_status always3 s_pass)) log4
+            | Some icl => mkCf st4 icl log4 always3
+            | None => mkCf st4 (relay (with_status always3 s_pass)) log4 (with_status always3 s_pass)
             end
           else
           (* ---- the caching writer ---- *)
           let hc := suffix_etag c (clear_and_copy (rs_hdrs rp) always3) in
           if st_over =? 304 then
             match inner_cl with
-            | Some icl => mkCf st4 icl log4
-            | None => mkCf st4 (mk_client (q_method q) 304 hc []) log4
+            | Some icl => mkCf st4 icl log4 always3
+            | None => mkCf st4 (mk_client (q_method q) 304 hc []) log4 always3
             end
           else
           let store_status := if st_over =? 206 then 200 else st_over in
@@ -564,21 +580,21 @@ Fixpoint caching_func (fuel : nat) (c : mcfg) (st : mstate) (q : req) (override_
                   (disk_put d4 name' (mkEntry (encode_meta m) body), true) in
           let st5 := mkState d5 (ms_script st4) (ms_now st4) in
           match inner_cl with
-          | Some icl => mkCf st5 icl log4
+          | Some icl => mkCf st5 icl log4 always3
           | None =>
             if servable then
               let n := Z.of_nat (length body) in
               match rr with
               | Some r =>
                 match send_slice body (rr_start r n) (rr_size r n) with
-                | Some b => mkCf st5 (mk_client (q_method q) st_over hc b) log4
-                | None => mkCf st5 (mk_client (q_method q) st_over hc []) log4
+                | Some b => mkCf st5 (mk_client (q_method q) st_over hc b) log4 always3
+                | None => mkCf st5 (mk_client (q_method q) st_over hc []) log4 always3
                 end
-              | None => mkCf st5 (mk_client (q_method q) st_over hc body) log4
+              | None => mkCf st5 (mk_client (q_method q) st_over hc body) log4 always3
               end
             else
               (* the header went out, the body never did *)
-              mkCf st5 (mk_client (q_method q) st_over hc []) log4
+              mkCf st5 (mk_client (q_method q) st_over hc []) log4 always3
           end
         end
       end
